@@ -284,8 +284,64 @@ def gen_to_route(out):
     out.append('Definition cands_other : list (option (list N)) := %s.' % coq_cands(other_c))
 
 
+def _nobody_probe():
+    """ask the code: for which status codes is the body of a GET response dropped? (a handler sets the status and
+    returns one byte; every code 100..599 the status setter accepts is tried; HEAD must drop every body)"""
+    import io
+    mod = rt('ombott.ombott')
+
+    def serve(code, method):
+        app = mod.Ombott()
+
+        @app.route('/p', method=['GET', 'HEAD'])
+        def h():
+            app.response.status = code
+            return 'x'
+        env = {'REQUEST_METHOD': method, 'PATH_INFO': '/p', 'QUERY_STRING': '', 'SERVER_NAME': 'l', 'SERVER_PORT': '80',
+               'SERVER_PROTOCOL': 'HTTP/1.1', 'wsgi.url_scheme': 'http', 'wsgi.input': io.BytesIO(b''),
+               'wsgi.errors': io.StringIO(), 'SCRIPT_NAME': ''}
+        got = {}
+        body = b''.join(app(env, lambda st, hd, ei=None: got.setdefault('st', st)))
+        return got.get('st', ''), body
+    dropped = []
+    for code in range(100, 600):
+        st, body = serve(code, 'GET')
+        if not st.startswith('%d ' % code):
+            continue                    # the setter refused the code (or the request failed): not informative
+        if body == b'':
+            dropped.append(code)
+        elif body != b'x':
+            raise Shape('wsgi: probing the no-body test gave an unexpected body for %d' % code)
+    for code in (200, 404, 500):
+        if serve(code, 'HEAD')[1] != b'':
+            raise Shape('wsgi: probing: HEAD response with a body')
+    ranges, singles, i = [], [], 0
+    while i < len(dropped):
+        j = i
+        while j + 1 < len(dropped) and dropped[j + 1] == dropped[j] + 1:
+            j += 1
+        if j - i >= 2:
+            ranges.append((dropped[i], dropped[j]))
+        else:
+            singles.extend(dropped[i:j + 1])
+        i = j + 1
+    return singles, ranges
+
+
 @group('ombott.nobody_test')
 def gen_nobody(out):
+    try:
+        _gen_nobody_ast(out)
+    except Shape as e:
+        del out[:]
+        sets, ranges = _nobody_probe()
+        out.append('(* ombott.py: Ombott.wsgi no-body test: obtained by probing every status code 100..599 '
+                   '(source shape not recognised: %s) *)' % str(e).replace('*)', '* )').replace('(*', '( *')[:120])
+        out.append('Definition nobody_codes : list Z := %s.' % coq_list('%d%%Z' % c for c in sets))
+        out.append('Definition nobody_ranges : list (Z * Z) := %s.' % coq_list('(%d%%Z, %d%%Z)' % r for r in ranges))
+
+
+def _gen_nobody_ast(out):
     tree, _ = parse('ombott/ombott.py')
     cls = find_class(tree, 'Ombott')
     ns = vars(rt('ombott.ombott'))
@@ -323,6 +379,9 @@ def gen_nobody(out):
         raise Shape('wsgi: HEAD test missing')
     if not isinstance(nobody, ast.BoolOp) or not isinstance(nobody.op, ast.Or):
         raise Shape('wsgi: no-body test is not a disjunction')
+    if (not sets and not ranges) or any(isinstance(n, ast.Call) and 'environ' not in ast.unparse(n.func)
+                                         for n in ast.walk(nobody)):
+        raise Shape('wsgi: the status part of the no-body test is not written out in place')
     out.append('Definition nobody_codes : list Z := %s.' % coq_list('%d%%Z' % c for c in sets))
     out.append('Definition nobody_ranges : list (Z * Z) := %s.' % coq_list('(%d%%Z, %d%%Z)' % r for r in ranges))
 
@@ -535,21 +594,6 @@ def gen_router_tokens(out):
     out.append('Definition path_sep : N := %d%%N.' % ord(ps))
 
 
-@group('router.filter_table_src')
-def gen_filter_table_src(out):
-    # the source text of the table (kept for the pins that read it; breaks on any respelling)
-    tree, src = parse('ombott/router/filter_factory.py')
-    cls = find_class(tree, 'FilterFactory')
-    filt = class_assign(cls, 'filters')
-    if not isinstance(filt, ast.Dict):
-        raise Shape('filters table')
-    rows = []
-    for k, v in zip(filt.keys, filt.values):
-        rows.append((lit(k), ast.unparse(v)))
-    out.append('Definition filter_table_src : list (list N * list N) := %s.' %
-               coq_list('(%s, %s)' % (coq_str(a), coq_str(b)) for a, b in rows))
-
-
 @group('router.filter_table')
 def gen_filter_table(out):
     """the filter table as the running code presents it, independent of its spelling: per filter name the mask for
@@ -591,7 +635,6 @@ def gen_filter_table(out):
 
 def gen_router(out):
     gen_router_tokens(out)
-    gen_filter_table_src(out)
     gen_filter_table(out)
 
 
@@ -703,6 +746,11 @@ def gen_request(out):
     out.append('Definition body_property_rewinds_cached : bool := %s.' % ('true' if ok else 'false'))
 
 
+def re_findall_pct(t):
+    import re
+    return re.findall(r'%s', t.replace('%%', ''))
+
+
 def _framework_errors():
     """the texts of the errors the framework itself creates (status code, body)"""
     tree, _ = parse('ombott/ombott.py')
@@ -770,7 +818,23 @@ def gen_critical_page(out):
     mod = rt('ombott.ombott')
     w = find_func(cls, 'wsgi')
     src = ast.unparse(w)
-    strs = [n.value for n in ast.walk(w) if isinstance(n, ast.Constant) and isinstance(n.value, str)]
+    inside_f = {id(c) for n in ast.walk(w) if isinstance(n, ast.JoinedStr) for c in ast.walk(n) if c is not n}
+    strs = [n.value for n in ast.walk(w) if isinstance(n, ast.Constant) and isinstance(n.value, str)
+            and id(n) not in inside_f]
+    # an f-string is read as the %-template it spells: literal pieces with %s for every plain {name} field
+    for n in ast.walk(w):
+        if isinstance(n, ast.JoinedStr):
+            t = ''
+            for v in n.values:
+                if isinstance(v, ast.Constant) and isinstance(v.value, str):
+                    t += v.value.replace('%', '%%')
+                elif isinstance(v, ast.FormattedValue) and v.conversion == -1 and v.format_spec is None:
+                    t += '%s'
+                else:
+                    t = None
+                    break
+            if t:
+                strs.append(t)
     named = {}
     for n in ast.walk(w):
         if isinstance(n, ast.Name) and isinstance(getattr(mod, n.id, None), (str, tuple, list)):
@@ -783,6 +847,8 @@ def gen_critical_page(out):
         raise Shape('wsgi: last-resort page texts not found')
     if "html_escape(environ.get('PATH_INFO', '/'))" not in src:
         raise Shape('wsgi: last-resort page does not escape PATH_INFO the expected way')
+    if len(re_findall_pct(crit[0])) != 1 or len(re_findall_pct(dbg[0])) != 2:
+        raise Shape('wsgi: last-resort page templates do not have the expected number of fields')
     out.append('Definition critical_page_fmt : list N := %s.' % coq_str(crit[0]))
     out.append('Definition critical_debug_fmt : list N := %s.' % coq_str(dbg[0]))
     out.append('Definition critical_status_line : list N := %s.' % coq_str(st[0]))
